@@ -7,7 +7,9 @@ payload dtype, injective relabelling of the payload by non-finite bit patterns, 
 storage for two parameters; each must reproduce the canonical outcome and leave the argument tensors untouched.
 audit_cases(): streams for situations a generic draw meets too rarely (evaluation-mode shift, pads > T through every
 entry point of the shared helper, right-dominant wholly-right slices, aliasing / single-row batches, seed-driven
-eager-vs-scripted RandomShift judged by Spec.spec_shift_okb)."""
+eager-vs-scripted RandomShift judged by Spec.spec_shift_okb).
+size_cases(): sequence / batch / trailing dimension and output width at the sizes where kernels and rewrites change algorithm
+(17, 31..33, 63..65, 127..129, 255..257; 2^15 and 2^16 judged by the python oracle size_oracle alone)."""
 import itertools
 import json
 from fractions import Fraction
@@ -1394,7 +1396,9 @@ def run(chk, cases=None):
                 "seed-driven shift cases (real generator, eager and scripted) are judged by Spec.spec_shift_okb")
     chk.assumptions += ["regime E: integer payload and fill value, dyadic prop and uniform variates, so float32/64 arithmetic is exact",
                         "torch.rand_like is patched to return the variates handed to the model (RandomShift)",
-                        "trailing dimensions are flattened to one feature axis by the harness (cells); lens <= T and pads >= 0 in every generated case"]
+                        "trailing dimensions are flattened to one feature axis by the harness (cells); lens <= T and pads >= 0 in every generated case",
+                        "stream size-regime-oracle (sequence dimension next to 2^15 / 2^16, more than %d input cells) is judged by the python oracle "
+                        "size_oracle (per-row definition of the property text) alone, not by the Coq model" % MODEL_CELLS_CAP]
     replaying = cases is not None
     if cases is None:
         cases = exhaustive_cases(chk.tier) + corner_cases()
